@@ -244,6 +244,42 @@ def run(tier, seed):
     ob["solver_s"] = round(timer[0], 2)
     obligations.append(ob)
 
+    # ---- S16.6 with auth on, the console's data API is not registered on the API port (it has no login middleware there and lies
+    # outside the prefixes the auth middleware checks). The property's statement names the /nacos/ and /rnacos/v1/ endpoints; its title
+    # says "no data endpoint": this obligation covers exactly the one other family of data routes the API port can carry.
+    timer = [0.0, 0]
+    ob = {"engine": "smt", "harness": "s16_6_no_console_api_on_the_api_port", "encodes": ["web_config::app_config and callees (route registration)"], "encodes_files": FILES,
+          "bound": "every configuration of (enable_no_auth_console, openapi_enable_auth) with auth on; every registered route pattern", "queries": 0, "solver_s": 0.0, "distinct": 0}
+    try:
+        res, flags, q = routes.extract(prog, "app_config", ["enable_no_auth_console", "openapi_enable_auth"])
+        s = z3.Solver()
+        n_cfg = 0
+        leaked = None
+        for pc, rts in res:
+            s.push()
+            s.add(*pc)
+            s.add(flags["openapi_enable_auth"])
+            if solve(s, timer) == z3.sat:
+                n_cfg += 1
+                m = s.model()
+                bad = sorted({pat for pat, method, handler in rts if pat.startswith("/rnacos/api/")})
+                if bad and leaked is None:
+                    leaked = (bad, {k: str(m.eval(v, model_completion=True)) for k, v in flags.items()})
+            s.pop()
+        if leaked:
+            ob.update({"verdict": "violation", "tags": ["console-api-on-api-port"],
+                       "message": "with OpenAPI auth on (%s) the API port registers %d console API routes without a login check, e.g. %s" % (leaked[1], len(leaked[0]), leaked[0][:3]),
+                       "counterexample": {"config": leaked[1], "routes": leaked[0][:12]}})
+        elif n_cfg == 0:
+            ob.update({"verdict": "inconclusive", "message": "no configuration with auth on found (vacuous)"})
+        else:
+            ob.update({"verdict": "discharged", "distinct": n_cfg})
+    except rsparse.Unsupported as e:
+        ob.update({"verdict": "inconclusive", "message": "encoder met source it cannot encode: %s" % e})
+    ob["queries"] = timer[1]
+    ob["solver_s"] = round(timer[0], 2)
+    obligations.append(ob)
+
     # ---- S16.2 middleware decision: forwarded => auth off, or unchecked path, or a non-empty valid token was presented
     timer = [0.0, 0]
     ob = {"engine": "smt", "harness": "s16_2_middleware_decision", "encodes": ["ApiCheckAuthMiddleware::call (whole body, lenient evaluation)"],
